@@ -25,6 +25,16 @@ pub fn parse(
         }
         else if let Ok(elem_size) = usize::from_str_radix(&name[1..], 10)
         {
+            if elem_size as u64 >= util::BIGINT_MAX_BITS
+            {
+                report.error_span(
+                    "value is out of supported range",
+                    header_span);
+                
+                return Err(());
+            }
+
+
             return Ok(asm::AstAny::DirectiveData(
                 asm::parser::directive_data::parse(
                     report,
